@@ -477,6 +477,12 @@ class Push(ArmInstruction):
     reg_list = Operand("reg_list", RegisterSet)
     syntax = Syntax(["push", " ", reg_list])
 
+    @property
+    def used_registers(self):
+        """The registers in the list are stored."""
+        regs = sorted(self.reg_list, key=lambda r: r.num)
+        return regs + super().used_registers
+
     def encode(self):
         tokens = self.get_tokens()
         tokens[0].cond = AL
@@ -488,6 +494,12 @@ class Push(ArmInstruction):
 class Pop(ArmInstruction):
     reg_list = Operand("reg_list", RegisterSet)
     syntax = Syntax(["pop", " ", reg_list])
+
+    @property
+    def defined_registers(self):
+        """The registers in the list are loaded."""
+        regs = sorted(self.reg_list, key=lambda r: r.num)
+        return regs + super().defined_registers
 
     def encode(self):
         tokens = self.get_tokens()
